@@ -22,8 +22,8 @@ Exts  == Kinds \cup {"htm", "none", "dat"}
 OwnExt(k, e) == e = k \/ (k = "html" /\ e = "htm")
 Supported(e) == e \in Kinds \cup {"htm"}
 
-VARIABLES mode, kind, ext, ecase, order, decoy, epub, tgt
-vars == <<mode, kind, ext, ecase, order, decoy, epub, tgt>>
+VARIABLES mode, kind, ext, ecase, order, decoy, epub, tgt, then
+vars == <<mode, kind, ext, ecase, order, decoy, epub, tgt, then>>
 Ooxml == {"docx", "xlsx", "pptx"}
 
 \* an EPUB for the DRM table: which resources are listed in encryption.xml and how
@@ -44,8 +44,12 @@ Init == \/ /\ mode = "admit" /\ kind \in Kinds /\ ext \in Exts /\ ecase \in {"lo
            /\ epub = NoEpub
            \* how the package relationship names the main part of an OOXML document: relative ("xl/workbook.xml"),
            \* absolute ("/xl/workbook.xml") or with a dot segment ("./xl/workbook.xml") - all three are the same part
-           /\ tgt \in (IF kind \in Ooxml THEN {"rel", "abs", "dot"} ELSE {"rel"})
-        \/ /\ mode = "drm" /\ kind = "epub" /\ ext = "epub" /\ ecase = "lower" /\ order = "canonical" /\ decoy = "none" /\ tgt = "rel"
+           /\ tgt \in (IF kind \in Ooxml THEN {"rel", "abs", "dot"} ELSE {"rel"}) /\ then = "none"
+        \* "rewrite": the file is admitted (or refused) once, then the bytes under the SAME name are replaced by a document
+        \* of kind `then` and it is opened again: each decision depends on the bytes the name holds at that moment
+        \/ /\ mode = "rewrite" /\ kind \in Kinds /\ then \in Kinds /\ then # kind /\ ext \in Kinds \cup {"htm"}
+           /\ ecase = "lower" /\ order = "canonical" /\ decoy = "none" /\ epub = NoEpub /\ tgt = "rel"
+        \/ /\ mode = "drm" /\ kind = "epub" /\ ext = "epub" /\ ecase = "lower" /\ order = "canonical" /\ decoy = "none" /\ tgt = "rel" /\ then = "none"
            /\ epub \in {e \in EpubSpace : (e.rights /\ e.enc # {}) \/ e.rfirst}      \* the order only exists when both files do
 Next == FALSE /\ UNCHANGED vars
 Spec == Init /\ [][Next]_vars
@@ -62,10 +66,11 @@ DrmVerdict(e) ==
     ELSE IF Obf(e.algo) /\ e.enc \subseteq {"font", "font2", "font3"} THEN "opens"
     ELSE "unspecified"
 
+OpenVerdict(k, e) == IF OwnExt(k, e) THEN "opens" ELSE IF Supported(e) THEN "refused" ELSE "unspecified"
 Expected ==
-    IF mode = "drm" THEN [detect |-> "epub", open |-> DrmVerdict(epub)]
-    ELSE [detect |-> kind,
-          open |-> IF OwnExt(kind, ext) THEN "opens" ELSE IF Supported(ext) THEN "refused" ELSE "unspecified"]
+    IF mode = "drm" THEN [detect |-> "epub", open |-> DrmVerdict(epub), open2 |-> "none"]
+    ELSE [detect |-> kind, open |-> OpenVerdict(kind, ext),
+          open2 |-> IF mode = "rewrite" THEN OpenVerdict(then, ext) ELSE "none"]
 
 \* sanity: the table is total and refusal / admission never coincide
 TypeOK == Expected.open \in {"opens", "refused", "unspecified"}
